@@ -123,6 +123,10 @@ func marshalStructValue(field reflect.Value, fieldType reflect.StructField) (str
 	case reflect.Int:
 		return strconv.Itoa(int(field.Int())), nil
 	case reflect.Ptr:
+		if field.IsNil() {
+			/* nothing to write for an unset pointer */
+			return "", nil
+		}
 		return marshalStructValue(field.Elem(), fieldType)
 	case reflect.Slice:
 		return marshalStructValueSlice(field, fieldType)
